@@ -350,8 +350,14 @@ class Ref:
 
     def _trigger(self, evi):
         if evi.initial:
-            self._activate_initial(evi)
+            # activation enters the start state only if, when its turn comes, the model still
+            # holds no state (an async machine activates lazily: a valid value written to the
+            # model in between is a stored state to be resumed, C10/C11)
+            if self.value is None:
+                self._activate_initial(evi)
             return SENT
+        if self.value is None:
+            raise RefInvalidStateValue(None)      # no current state (activation failed / absent)
         src = self.cur()
         for (tidx, t) in self.trans_of.get(src.id, ()):
             if evi.name not in t.events:
